@@ -6,7 +6,7 @@
 # or copied as an integration test if the target is under crates/core/tests/.
 set -u
 id=$1; patch=$2; demo=$3; target=$4; filter=$5; shift 5
-W=/tmp/seedverify; export CARGO_TARGET_DIR=/tmp/seedverify-target CARGO_NET_OFFLINE=true; unset RUST_BACKTRACE
+W=/tmp/seedverify; export CARGO_TARGET_DIR=${SEEDVERIFY_TARGET:-/tmp/seedverify-target} CARGO_NET_OFFLINE=true; unset RUST_BACKTRACE
 [ -d $W ] || git -C /repo worktree add -q --detach $W HEAD
 cd $W && git checkout -q --detach $(git -C /repo rev-parse HEAD) && git checkout -q -- . && git clean -qfd crates
 splice() { python3 - "$1" "$2" <<'PY'
